@@ -141,6 +141,10 @@ def run_kani_group(pid, kcfg, tier, seed, clock, gi=0):
                     undecided.append("%s: no verdict (timeout after %ds or solver crash)" % (name, timeout_s))
                     continue
                 if not cl["tagged"]:
+                    if u.property and u.property != pid and cl["foreign"]:
+                        # a harness of a shared unit that carries only the other property's obligations
+                        rec["outcome"] = "not-this-property"
+                        continue
                     undecided.append("%s: zero tagged obligations (vacuity guard)" % name)
                 for d, st in cl["must_cover_bad"]:
                     # a cover can be unsatisfied because a failing assertion cuts the path; only
